@@ -798,7 +798,28 @@ func vfSimGen(r *verifrt.Rand, idx int) *vfSimScenario {
 			t = at
 		}
 	}
-	joined := t + 3*time.Second
+	// a quarter of the scenarios: one ordinary node is started before its seeds are up, so it joins on the retry timer
+	if r.Intn(4) == 0 && sc.N >= 3 {
+		var cand []int
+		for i := 1; i <= sc.N; i++ {
+			if !isSeed(i) && len(sc.Seeds[i]) > 0 && sc.Seeds[i][0] != i {
+				cand = append(cand, i)
+			}
+		}
+		if len(cand) > 0 {
+			early := cand[r.Intn(len(cand))]
+			shift := time.Duration(1000+r.Intn(4000)) * time.Millisecond
+			for k := range sc.Actions {
+				if sc.Actions[k].Node == early {
+					sc.Actions[k].At = 0
+				} else {
+					sc.Actions[k].At += shift
+				}
+			}
+			t += shift
+		}
+	}
+	joined := t + 8*time.Second
 	// faults
 	class := "faultfree"
 	if idx%4 != 0 { // a quarter of the scenarios stays fault-free
